@@ -684,7 +684,7 @@ def corr_flatten(check, impl, tier):
     from spyne.protocol.dictdoc import SimpleDictDocument
     rng = check.rng
     g = Gen(rng)
-    n = 150 if tier == 'quick' else 2500
+    n = 250 if tier == 'quick' else 2500
     cases = []
     for _ in range(n):
         fields = g.signature()
@@ -822,8 +822,8 @@ def malformed_pairs(g, fields, delim, rng):
 def corr_get(check, impl, tier):
     rng = check.rng
     g = Gen(rng)
-    n_valid = 260 if tier == 'quick' else 4000
-    n_bad = 200 if tier == 'quick' else 3000
+    n_valid = 400 if tier == 'quick' else 4000
+    n_bad = 300 if tier == 'quick' else 3000
     cases = []
     for i in range(n_valid + n_bad):
         fields = g.signature()
@@ -888,7 +888,7 @@ def corpus(g):
 def oracle_get(check, impl, tier):
     rng = check.rng
     g = Gen(rng)
-    n = 700 if tier == 'quick' else 12000
+    n = 1000 if tier == 'quick' else 12000
     todo = []
     for fields, sv, indexed, strict in corpus(g):
         for validator in (None, 'soft'):
@@ -963,7 +963,7 @@ def oracle_flat_roundtrip(check, impl, tier):
     from spyne.protocol.dictdoc import SimpleDictDocument
     rng = check.rng
     g = Gen(rng)
-    n = 250 if tier == 'quick' else 4000
+    n = 400 if tier == 'quick' else 4000
     for _ in range(n):
         fields = g.signature()
         delim = rng.choice(DELIMS)
@@ -1098,7 +1098,7 @@ def run(check):
     check.prove('Props.C03', THEOREMS)
     check.prove('Props.C03_src', SRC_THEOREMS)
     del SPEC_TIE[:]
-    SPEC_TIE_MAX[0] = 400 if tier == 'quick' else 4000
+    SPEC_TIE_MAX[0] = 600 if tier == 'quick' else 6000
     impl = Impl()
     corr_s2cmi(check, tier)
     corr_keys(check, tier)
@@ -1116,6 +1116,13 @@ def run(check):
                        show='(fun c : bool * text * list (text * ty) * list sval * list (text * list text) * list (text * val) => '
                             'let \'(st, d, fs, vs, doc, e) := c in (wf_sig d fs, conf_fields st fs vs, '
                             'perm_docb doc (spell d fs vs), obj_eqb (compact_fields fs vs) e))')
+    # the theorems are about unflatten with the natural sort and a per-branch type-info table: the
+    # working tree must use both (read from the source by the flatkeys translator)
+    lib.correspond(check, 'source_flags', 'From SpyneV Require Import Base.Prelude C03.SourceTie.', 'unit',
+                   '(fun _ => source_flags_ok)',
+                   [('tt', 'simple_dict_to_object sorts with _natural_key and get_simple_type_info_with_prot '
+                           'expands a class in every branch (Gen/FlatKeys.v: src_sort_natural, src_sti_per_branch)')],
+                   show='(fun _ : unit => (Gen.FlatKeys.src_sort_natural, Gen.FlatKeys.src_sti_per_branch))')
     lib.flush_correspondences(check)
     check.extra['unexercised'] = ['HttpRpc POST/PUT/PATCH form-body branch (werkzeug absent)']
     return check.finish()
